@@ -31,6 +31,15 @@ class InfoCompiler(BaseOutlineCompiler):
 
         # Create a temporary UFO and sets its fontinfo to the union of the main
         # UFO's fontinfo and the DesignSpace variable-font’s info.
+        temp_ufo = self._makeTempUFO(ufo, info)
+        # The same without the overrides, to tell which name records of the
+        # original font come from the main UFO's fontinfo.
+        self._source_ufo = self._makeTempUFO(ufo, {})
+
+        super().__init__(temp_ufo, tables=tables, glyphSet={}, glyphOrder=[])
+
+    @staticmethod
+    def _makeTempUFO(ufo, info):
         temp_ufo = type(ufo)()
         if hasattr(ufo.info, "getDataForSerialization"):
             # defcon
@@ -42,8 +51,7 @@ class InfoCompiler(BaseOutlineCompiler):
             temp_ufo.info = copy.copy(ufo.info)
             for k, v in info.items():
                 setattr(temp_ufo.info, k, v)
-
-        super().__init__(temp_ufo, tables=tables, glyphSet={}, glyphOrder=[])
+        return temp_ufo
 
     def compile(self):
         super().compile()
@@ -160,6 +168,19 @@ class InfoCompiler(BaseOutlineCompiler):
         )
 
     def setupTable_name(self):
+        # The records that the main UFO's fontinfo alone produces: those that
+        # the overridden fontinfo no longer produces (e.g. typographic names
+        # that became redundant) must not survive in the original font.
+        temp_ufo, self.ufo = self.ufo, self._source_ufo
+        try:
+            super().setupTable_name()
+        finally:
+            self.ufo = temp_ufo
+        source_keys = {
+            (n.nameID, n.platformID, n.platEncID, n.langID)
+            for n in self.otf["name"].names
+        }
+
         super().setupTable_name()
         temp = self.otf["name"]
         orig = self.orig_otf["name"]
@@ -167,7 +188,10 @@ class InfoCompiler(BaseOutlineCompiler):
             (n.nameID, n.platformID, n.platEncID, n.langID): n for n in temp.names
         }
         orig_names = {
-            (n.nameID, n.platformID, n.platEncID, n.langID): n for n in orig.names
+            (n.nameID, n.platformID, n.platEncID, n.langID): n
+            for n in orig.names
+            if (n.nameID, n.platformID, n.platEncID, n.langID) not in source_keys
+            or (n.nameID, n.platformID, n.platEncID, n.langID) in temp_names
         }
         orig_names.update(temp_names)
         orig.names = list(orig_names.values())
